@@ -199,6 +199,30 @@ def check(ctx, t, d, configs, cases, where):
         except Exception:
             impl = "(err)"
         cases.append(("xdr-dec %s %s" % (ts, hexb(xdr)), impl, meta))
+        # the data part in the chunks the server itself yields (one per block/record), through a StreamReader
+        try:
+            from pydap.handlers.dap import unpack_dap2_data
+            from pydap.lib import StreamReader
+            from pydap.parsers.dds import dds_to_dataset
+            pos, xchunks = 0, []
+            for c in X.get(app, "/d.dods").app_iter:
+                lo = max(len(dds) + 6 - pos, 0)
+                pos += len(c)
+                if lo < len(c) or (pos >= len(dds) + 6 and not c):
+                    xchunks.append(bytes(c[lo:]))
+            it = iter(xchunks)
+            reader = StreamReader(it)
+            values = unpack_dap2_data(reader, dds_to_dataset(dds.decode("ascii")))
+            got = X.canon(t, X.decoded_to_raw(values, t))
+            impl = "(ok %s %s)" % (X.data_sexp(t, got), hexb(bytes(reader.buf) + b"".join(it)))
+            if got != d and cls is None:
+                ctx.oracle_fail("StreamReader over the server's own chunks: other values than the server holds",
+                                {"tmpl": B.pack(t), "data": B.pack(d), "config": "dods-url"}, B.pack(got), B.pack(d))
+        except Exception:
+            impl = "(err)"
+        if b"".join(xchunks) == xdr:
+            cases.append(("xdr-dec-sr %s (%s)" % (ts, " ".join(hexb(c) for c in xchunks)), impl, dict(meta, path="server-chunks")))
+            ctx.tags["server-chunks:%s" % ("1" if len(xchunks) == 1 else "2-4" if len(xchunks) < 5 else "5+")] += 1
     tg = B.tags_of(t)
     for g in set(tg):
         ctx.tags[where + ":" + g] += 1
